@@ -467,8 +467,7 @@ EXPECTED_READ = {
 }
 
 
-def r8(ctx):
-    rule = "C11.R8"
+def r8(ctx, rule="C11.R8"):
     ctx.rule(rule, "check what is read: every length-scoped BitRead method of BitBuffer and Bits asks ensure_can_read_bits for exactly "
                    "the number of bits the raw slice reader it delegates to will consume (dst.len() * 8, that minus the offset, or the "
                    "length argument) - the twin of C11.R4 on the read side")
@@ -495,7 +494,7 @@ def r8(ctx):
                                                    "end succeed or legitimate reads are refused" % (got[0], want), ens[0].loc(), detail)
             else:
                 ctx.ok(rule, "%s::%s" % (ty, m), detail)
-    ctx.floor(rule, n, "C11.R8.methods")
+    ctx.floor(rule, n, rule + ".methods")
 
 
 def run(ctx):
